@@ -293,7 +293,7 @@ func cleanRef(ic icase) *canon {
 	}
 	s := ic.build()
 	if res := runInit(s, ic.cfg, -1); !res.ok() {
-		panic(explore.HarnessError{Msg: "clean reference run from " + ic.name + ": " + res.String()})
+		panic(explore.Failure{Signature: "init/fails/" + errClass(res), Message: "a fault-free init from store \"" + ic.name + "\" stops with " + res.String()})
 	}
 	c := snapshot(s).canonical()
 	cleanRefs[ic.name] = c
